@@ -32,6 +32,18 @@ CHECKS = {
         text='MSD, distance from the start and tracer diffusivity are TLA+ operators over the integer unwrapped walk and the integer metric tensor; TLC checks lemmas on the model and, as an oracle, prints the exact numerators for harness-generated walks that cross faces many times in 6 cell families x 3 orientations; the floats of the real code must equal these rationals.',
         note='Trusted: TLC integer arithmetic; exact-lattice abstraction (/16 grid, |step| < half cell); FFT round-off bounds the comparison at relative 1e-8; scipy constants.',
         ref='DESIGN.md 8/C06', technique='TLA+ spec Metrics.tla; TLC model checking (MC_Metrics) + TLC as exact oracle on recorded inputs (TraceMetrics.tla)'),
+    'C08': dict(
+        text='Voxel binning is specified in integers (n = L div res, Bin(k,n,N) = floor(k n / N), Density as a set of (voxel,count)); TLC evaluates the round-trip and resolution-band lemmas over their whole small domains and judges recorded trajectory_to_volume results (6 cell families x 3 orientations, unequal axes, samples on and off voxel edges) voxel by voxel.',
+        note='Trusted: TLC; integer cell lengths; L/res kept 0.02 from integers; on-edge samples only for power-of-two voxel counts.',
+        ref='DESIGN.md 8/C08', technique='TLA+ spec Grid.tla (NVox, Bin, Density, RoundTrip, ResolutionBand); TLC lemma evaluation + trace validation (TraceGrid.tla)'),
+    'C09': dict(
+        text='The free-energy node set and the inverse-image relation total*exp(-F/kT) = count are TLA+ predicates over integer density grids; TLC judges recorded get_free_energy / free_energy_graph results for finiteness, exact node set, recovery of every integer count, monotonicity and prohibitive unvisited voxels.',
+        note='Trusted: TLC; ln is checked only through its inverse on integer counts (alpha with scipy k_B, relative 1e-6).',
+        ref='DESIGN.md 8/C09', technique='TLA+ spec Grid.tla + TraceGrid.tla!VFree; trace validation with integer recovery'),
+    'C10': dict(
+        text='Paths are behaviours of a walker on the periodic voxel grid; TLC model-checks on every small grid that no walker behaviour beats the Bellman-Ford operator MinCost and that MinCost/MinPeak are attained, then uses these operators to judge recorded optimal_path (5 methods, both neighbourhoods) and optimal_percolating_path (7 direction sets, several peaks) results: validity, reported energies, minimal cost, image one cell away, best over peaks, wrapped/fractional sites.',
+        note='Trusted: TLC; integer energies so that costs are exact; ties not compared. minmax-energy = dijkstra is known finding D7.',
+        ref='DESIGN.md 8/C10', technique='TLA+ spec Grid.tla (walker, MinCost, MinPeak, Tile); TLC model checking (MC_Walker) + trace validation (TraceGrid.tla)'),
     'C12': dict(
         text='The sorted scan of collective.py is transcribed into TLA+ and TLC proves it equal to the declarative pair definition on every bounded jump table (negative control: the early exit originally coded is refuted); TLC-exported tables are replayed through Collective and random tables in real cells are judged by the trace spec with exact site distances.',
         note='Trusted: TLC; tables injected through the public Jumps(conversion_method=...) parameter; cut-offs kept 1e-4 away from site distances.',
